@@ -732,10 +732,128 @@ void swap_assign_entry()
   }
 }
 
+// A cell whose copy construction / copy assignment throws when an armed countdown reaches zero: an assignment between
+// grids that is interrupted by an exception leaves SOME grid behind - and that grid is still a grid: its content() is
+// the product of its size and the number of cells it stores, every in-range position has a cell (at_optional), every
+// other position has none.  (Which values it holds is not judged: the assignment did not complete.)
+struct copy_fault
+{
+};
+long g_copy_countdown = -1; // < 0: not armed
+struct fcell
+{
+  std::uint32_t code = 0;
+  fcell() = default;
+  explicit fcell(std::uint32_t c) : code(c) {}
+  fcell(fcell const &o) : code(o.code) { maybe_throw(); }
+  fcell(fcell &&o) noexcept : code(o.code) {}
+  fcell &operator=(fcell const &o)
+  {
+    maybe_throw();
+    code = o.code;
+    return *this;
+  }
+  fcell &operator=(fcell &&o) noexcept
+  {
+    code = o.code;
+    return *this;
+  }
+  ~fcell() = default;
+  static void maybe_throw()
+  {
+    if (g_copy_countdown == 0)
+    {
+      g_copy_countdown = -1;
+      throw copy_fault{};
+    }
+    if (g_copy_countdown > 0)
+      --g_copy_countdown;
+  }
+};
+
+template <std::size_t N>
+void interrupted_assign_entry()
+{
+  std::string const e = "interrupted-assign/N=" + std::to_string(N);
+  if (!vf::entry_enabled(e))
+    return;
+  vf::set_entry(e);
+  using G = fg::object<fcell, N>;
+  std::vector<P<N>> const sizes = box<N>(all<N>(0), all<N>(3));
+  for (P<N> const &s1 : sizes)
+  {
+    if (!my_item())
+      continue;
+    if (!vf::begin_case("target size %s, every source size with extents in [0,2], a cell copy throws at every point", show(s1).c_str()))
+      continue;
+    vf::note_distinct(hp(s1, vf::hash_str(e)));
+    for (P<N> const &s2 : sizes)
+    {
+      std::size_t const n2 = cells(s2);
+      for (std::size_t k = 0; k < n2; ++k)
+      {
+        vf::operands(enc(s1), enc(s2), static_cast<long long>(k));
+        vf::add_evals(1);
+        G a(to_dim<std::size_t, N>(s1), [](typename G::pos const &p) { return fcell(code<N>(from_vec<N>(p))); });
+        G const b(to_dim<std::size_t, N>(s2), [](typename G::pos const &p) { return fcell(code<N>(from_vec<N>(p)) ^ 0x2aaU); });
+        bool thrown = false;
+        g_copy_countdown = static_cast<long>(k);
+        try
+        {
+          a = b;
+        }
+        catch (copy_fault const &)
+        {
+          thrown = true;
+        }
+        g_copy_countdown = -1;
+        if (thrown)
+          VF_COUNT("grid/assign-interrupted-by-exception");
+        else
+          VF_COUNT("grid/assign-not-interrupted");
+        std::string const w = "copy assignment " + show(s1) + " <- " + show(s2) + " interrupted at cell copy " + std::to_string(k);
+        P<N> const sz = from_vec<N>(a.size());
+        std::size_t const want = cells(sz);
+        std::size_t const stored = static_cast<std::size_t>(std::distance(a.begin(), a.end()));
+        if (stored != want || a.content() != want || a.empty() != (want == 0))
+        {
+          vf::violation(e + "/size-disagrees-with-stored-cells", "mismatch",
+                        w + ": size()=" + show(sz) + " (" + std::to_string(want) + " cells), stored=" + std::to_string(stored) + " content()=" + std::to_string(a.content()));
+          continue;
+        }
+        // every in-range position yields a stored cell (the reference is dereferenced: ASan judges the address)
+        std::uint64_t sum = 0;
+        for (P<N> const &p : box<N>(all<N>(0), sz))
+        {
+          auto const o = fg::at_optional(a, to_pos<std::size_t, N>(p));
+          if (!o.has_value())
+          {
+            vf::violation(e + "/cell-absent", "mismatch", w + ": at_optional(" + show(p) + ") is empty inside size " + show(sz));
+            break;
+          }
+          sum += o.get_unsafe().get().code;
+        }
+        (void)sum;
+        if (!thrown)
+        {
+          // not interrupted (the copy count of this path is below k): then it is b
+          auto bi = b.begin();
+          bool same = from_vec<N>(a.size()) == s2;
+          for (auto ai = a.begin(); same && ai != a.end(); ++ai, ++bi)
+            same = ai->code == bi->code;
+          if (!same)
+            vf::violation(e + "/completed-assignment-differs", "mismatch", w);
+        }
+      }
+    }
+  }
+}
+
 template <std::size_t N>
 void object_entry()
 {
   swap_assign_entry<N>();
+  interrupted_assign_entry<N>();
   std::string const e = "object/N=" + std::to_string(N);
   if (!vf::entry_enabled(e))
     return;
@@ -1662,7 +1780,7 @@ void body()
         "clamped_sup_signed/some-above-size", "clamped_sup_signed/unchanged", "clamped_range/nonempty",
         "clamped_range/partly-outside", "fill_map_apply/zero-extent", "fill_map_apply/nonempty", "apply/equal-sizes",
         "apply/unequal-sizes", "apply/unequal-sizes-same-content", "resize/grow", "resize/shrink", "resize/mixed",
-        "resize/same-size", "resize/cells-kept", "resize/cells-init", "observed/helpers/calls"})
+        "resize/same-size", "resize/cells-kept", "resize/cells-init", "observed/helpers/calls", "grid/assign-interrupted-by-exception"})
     vf::require_bucket(b);
   vf_slice_0();
   vf_slice_1();
